@@ -454,9 +454,11 @@ JoinedOK(T, s) == \A q \in KidsOf(T, s, CP) : T.el[q].type = "ServicePort" => Ca
 Joined(T, s) == {IF T.el[q].type = "ServicePort" THEN CHOOSE x \in Peers(T, q) : TRUE ELSE q : q \in KidsOf(T, s, CP)}
 SiteOf(T, p) == IF "Site" \in DOMAIN T.el[p].sp THEN T.el[p].sp["Site"] ELSE ""
 SvcSites(T, s) == {SiteOf(T, OwnerNode(T, i)) : i \in {x \in Joined(T, s) : OwnerNode(T, x) # ""}}
-HasProp(T, p, pn) == \* which of the constrained properties the alphabet can set
+GraphProp == [mirror_port |-> "MirrorPort", mirror_direction |-> "MirrorDirection", mirror_vlan |-> "MirrorVlan",
+              controller_url |-> "ControllerURL", ero |-> "ERO"]
+HasProp(T, p, pn) == \* is a constrained property set on the element
     CASE pn = "site" -> SiteOf(T, p) # ""
-      [] pn \in {"mirror_port", "mirror_direction", "mirror_vlan", "controller_url", "ero"} -> pn \in DOMAIN T.el[p].sp
+      [] pn \in DOMAIN GraphProp -> GraphProp[pn] \in DOMAIN T.el[p].sp
       [] OTHER -> FALSE
 ServiceValid(T, s) ==
     LET t == T.el[s].type c == ServiceConstraints[t] ifs == Joined(T, s) n == Cardinality(KidsOf(T, s, CP))
@@ -575,6 +577,8 @@ ApplyRaw(T, o) ==
       [] o.op = "Views"          -> Views(T)
       [] o.op = "HandleIfs"      -> HandleIfs(T, o.p)
       [] o.op = "Validate"       -> Validate(T)
+      \* the live constraint tables must equal the pinned ones (a silent edit of the tables is reported as such)
+      [] o.op = "ConstraintTables" -> R(T, "ok", [k |-> "tables", svc |-> ServiceConstraints, node |-> NodeConstraints, link |-> LinkLayer])
 
 Apply(T, o) == WithHandles(o, ApplyRaw(T, o))
 
